@@ -20,7 +20,7 @@ META = {
     "explanation": "invert_diagonal_blocks (numba source as Python, and the python path), block_diag_matrix/"
                    "block_diag_index, generate_permutation_to_block_diag_matrix and "
                    "invert_permuted_block_diag_matrix on symbolic block entries",
-    "assumptions": ["floats as exact reals", "blocks non-singular (det != 0); block inverse = exact cofactor inverse "
+    "assumptions": ["floats as exact reals", "blocks non-singular and bounded away from singular (|det| >= 1/8, entries in [-4,4]); block inverse = exact cofactor inverse "
                     "(the documented contract of np.linalg.inv)", "block sizes in {1,2,3}, at most 3 blocks"],
     "stubs": ["np.linalg.inv on a symbolic block: adj(A)/det(A) under det(A) != 0"],
     "outside": ["numerical quality / conditioning", "blocks larger than 3x3 (sizes 4-6 of the property)"],
@@ -97,6 +97,14 @@ def harness(ctx, c):
     mo = pp.matrix_operations
     sizes = c["sizes"]
     D, M = _block_matrix(ctx, sizes)
+    # non-singular blocks (bounded away from singular so that the float replay is well conditioned)
+    from ..arr import sdet
+
+    o = 0
+    for sz in sizes:
+        d = lift(sdet(D[o:o + sz, o:o + sz]))
+        ctx.assume(z3.Or(d >= z3.RealVal(1) / 8, d <= -z3.RealVal(1) / 8))
+        o += sz
     inputs = {"case": c, "A": D.copy()}
 
     def case(conc):
